@@ -258,11 +258,16 @@ def c_demux(n=3):
     h.functions = ["litex.soc.interconnect.stream.Demultiplexer.__init__"]
     return h
 
-def c_cast():
-    d = mk(stream.Cast, [("a", 3), ("b", 5)], [("x", 6), ("y", 2)])
-    # documented function: raw bits reinterpretation Cat(x,y) == Cat(a,b)
-    h = HwCheck("Cast(a3b5->x6y2)", d, ep_inputs(d.sink, d.source))
-    raw_in = cat(h.v(d.sink.b), h.v(d.sink.a)); raw_out = cat(h.v(d.source.y), h.v(d.source.x))
+def c_cast(lf=(("a", 3), ("b", 5)), lt=(("x", 6), ("y", 2)), reverse_from=False, reverse_to=False):
+    lf, lt = [tuple(x) for x in lf], [tuple(x) for x in lt]
+    d = mk(stream.Cast, lf, lt, reverse_from, reverse_to)
+    # documented function: raw bits reinterpretation Cat(to fields) == Cat(from fields), each field list taken in layout order (first field in
+    # the low bits) or, with reverse_from / reverse_to, in reversed order (last field in the low bits)
+    h = HwCheck(f"Cast({''.join(f'{n}{w}' for n, w in lf)}->{''.join(f'{n}{w}' for n, w in lt)}{',reverse_from' if reverse_from else ''}{',reverse_to' if reverse_to else ''})", d, ep_inputs(d.sink, d.source))
+    fr = [h.v(getattr(d.sink, n)) for n, _ in lf]; to = [h.v(getattr(d.source, n)) for n, _ in lt]
+    if reverse_from: fr = fr[::-1]
+    if reverse_to: to = to[::-1]
+    raw_in = cat(*fr[::-1]); raw_out = cat(*to[::-1])                 # cat(): most significant first
     h.ensure("ens.valid", h.v(d.source.valid) == h.v(d.sink.valid))
     h.ensure("ens.bits", raw_out == raw_in)
     h.ensure("ens.flags", z3.And(h.v(d.source.first) == h.v(d.sink.first), h.v(d.source.last) == h.v(d.sink.last)))
